@@ -491,7 +491,7 @@ pub fn main(args: &Args) -> ! {
         let (sw, wm, ka, ms) = (d["socket_workers"].as_u64().unwrap_or(1) as u8, d["swarm_workers"].as_u64().unwrap_or(1) as u8, d["keep_alive"].as_bool().unwrap_or(true), d["max_scrape"].as_u64().unwrap_or(100) as usize);
         let trk = start_tracker(sw, wm, ka, ms);
         let pl = Placement { conn_worker: serde_json::from_value(d["conn_worker"].clone()).unwrap_or(vec![0, 1, 2]), torrent_worker: serde_json::from_value(d["torrent_worker"].clone()).unwrap_or(vec![0, 1, 2]) };
-        let p = Params { conns: 3, torrents: 3, max_scrape: ms, keep_alive: ka, scrape_variants: vec![], malformed: true };
+        let p = Params { conns: 6, torrents: 3, max_scrape: ms, keep_alive: ka, scrape_variants: vec![], malformed: true };
         let o1 = replay(&trk, &p, &path, 900_001, &pl);
         let o2 = replay(&trk, &p, &path, 900_002, &pl);
         if o1.violation.as_ref().map(|v| &v.0) != o2.violation.as_ref().map(|v| &v.0) {
@@ -527,22 +527,49 @@ pub fn main(args: &Args) -> ! {
     for (sw, wm) in if th { vec![(1u8, 1u8), (1, 3), (2, 2), (3, 3), (3, 1)] } else { vec![(1, 1), (2, 3)] } {
         jobs.push((sw, wm, true, 2));
     }
+    // max_scrape_torrents = 0: every scrape is answered with an empty reply
+    jobs.push((2, 2, true, 0));
     let all_placement_paths: Vec<Vec<HEv>> = paths.iter().filter(|p| p.len() <= 2).cloned().collect();
+    // fixed deep scenarios: six connections on one torrent (more peers than the inline representation holds), re-announces
+    // with changed status, stops, scrapes in between
+    let deep_paths: Vec<Vec<HEv>> = {
+        let mut v = Vec::new();
+        for variant in 0..4u8 {
+            let mut p = Vec::new();
+            for c in 0..6u8 {
+                p.push(HEv::Ann { c, t: 0, k: if (c + variant) % 2 == 0 { K::Seed } else { K::Leech } });
+                if c == 3 {
+                    p.push(HEv::Scrape { c: 0, v: 1 });
+                }
+            }
+            for c in 0..6u8 {
+                p.push(HEv::Ann { c: (c + variant) % 6, t: 0, k: if c % 3 == 0 { K::Stop } else if c % 3 == 1 { K::Leech } else { K::Seed } });
+            }
+            p.push(HEv::Scrape { c: 1, v: 1 });
+            p.push(HEv::Ann { c: 0, t: 0, k: K::Leech });
+            for c in (0..6u8).rev() {
+                p.push(HEv::Ann { c, t: 0, k: K::Stop });
+            }
+            p.push(HEv::Scrape { c: 0, v: 0 });
+            v.push(p);
+        }
+        v
+    };
     std::thread::scope(|s| {
         for (sw, wm, ka, ms) in jobs.iter().cloned() {
             let (viols, total_requests, total_paths, seg_cases) = (&viols, &total_requests, &total_paths, &seg_cases);
-            let (paths, paths_lim, p_main, p_lim, all_placement_paths) = (&paths, &paths_lim, &p_main, &p_lim, &all_placement_paths);
+            let (paths, paths_lim, p_main, p_lim, all_placement_paths, deep_paths) = (&paths, &paths_lim, &p_main, &p_lim, &all_placement_paths, &deep_paths);
             s.spawn(move || {
                 let trk = start_tracker(sw, wm, ka, ms);
-                let (ps, params): (&Vec<Vec<HEv>>, Params) = if ms == 2 {
-                    (paths_lim, Params { keep_alive: ka, scrape_variants: p_lim.scrape_variants.clone(), ..Params { conns: p_lim.conns, torrents: p_lim.torrents, max_scrape: 2, keep_alive: ka, scrape_variants: vec![], malformed: false } })
+                let (ps, params): (&Vec<Vec<HEv>>, Params) = if ms != 100 {
+                    (paths_lim, Params { keep_alive: ka, scrape_variants: p_lim.scrape_variants.clone(), ..Params { conns: p_lim.conns, torrents: p_lim.torrents, max_scrape: ms, keep_alive: ka, scrape_variants: vec![], malformed: false } })
                 } else {
                     (paths, Params { conns: p_main.conns, torrents: p_main.torrents, max_scrape: 100, keep_alive: ka, scrape_variants: p_main.scrape_variants.clone(), malformed: true })
                 };
                 let pls = placements(sw, wm, 3, 3);
                 // every transition under a rotating placement; short paths under every placement
                 let mut work: Vec<(&Vec<HEv>, Placement)> = ps.iter().enumerate().map(|(i, p)| (p, pls[i % pls.len()].clone())).collect();
-                if ms != 2 {
+                if ms == 100 {
                     for p in all_placement_paths.iter() {
                         for pl in &pls {
                             work.push((p, pl.clone()));
@@ -572,7 +599,24 @@ pub fn main(args: &Args) -> ! {
                         }
                     }
                 }
-                if ms != 2 && (sw, wm) != (2, 3) {
+                if ms == 100 {
+                    let dparams = Params { conns: 6, torrents: 3, max_scrape: 100, keep_alive: ka, scrape_variants: vec![], malformed: false };
+                    for (i, dp) in deep_paths.iter().enumerate() {
+                        let pl = Placement { conn_worker: (0..6u8).map(|c| (c + i as u8) % 3).collect(), torrent_worker: vec![i as u8 % 3, 1, 2] };
+                        let o = replay(&trk, &dparams, dp, NS.fetch_add(1, Ordering::Relaxed), &pl);
+                        total_requests.fetch_add(o.requests, Ordering::Relaxed);
+                        total_paths.fetch_add(1, Ordering::Relaxed);
+                        if let Some((sig, _)) = o.violation {
+                            let again = replay(&trk, &dparams, dp, NS.fetch_add(1, Ordering::Relaxed), &pl);
+                            if let Some((sig2, what2)) = again.violation {
+                                if sig2 == sig {
+                                    viols.lock().unwrap().push((sig2, what2, json!({"path": dp, "socket_workers": sw, "swarm_workers": wm, "keep_alive": ka, "max_scrape": ms, "conn_worker": pl.conn_worker, "torrent_worker": pl.torrent_worker, "deep": true})));
+                                }
+                            }
+                        }
+                    }
+                }
+                if ms == 100 && (sw, wm) != (2, 3) {
                     let sv: Mutex<Vec<(String, String)>> = Mutex::new(Vec::new());
                     let n = segmentation(&trk, &sv, th);
                     seg_cases.fetch_add(n, Ordering::Relaxed);
